@@ -2180,6 +2180,17 @@ func (b transportResponseBody) Read(p []byte) (n int, err error) {
 	n, err = b.cs.bufPipe.Read(p)
 	if cs.bytesRemain != -1 {
 		if int64(n) > cs.bytesRemain {
+			// Everything taken from the pipe, including the bytes discarded
+			// below, goes back to the connection-level flow control window.
+			cc.mu.Lock()
+			connAdd := cc.inflow.add(n)
+			cc.mu.Unlock()
+			if connAdd != 0 {
+				cc.wmu.Lock()
+				cc.fr.WriteWindowUpdate(0, mustUint31(connAdd))
+				cc.bw.Flush()
+				cc.wmu.Unlock()
+			}
 			n = int(cs.bytesRemain)
 			if err == nil {
 				err = errors.New("net/http: server replied with more than declared Content-Length; truncated")
